@@ -54,7 +54,7 @@ def scenarios(tier, seed):
         r = random.Random(seed)
         steps = ['ctor', 'compile', 'parse', 'parsex', 'stream', 'prebuilt', 'prebuiltx', 'callback', 'dom', 'builder', 'params', 'file']
         sheets = ['s1.xsl', 'params.xsl', 'html.xsl', 'text.xsl', 'autohtml.xsl', 'enc.xsl', 'utf16.xsl', 'ext.xsl', 'lazy.xsl']
-        for i in range(60):
+        for i in range(150):
             seq = '+'.join(r.choice(steps) for _ in range(r.randrange(2, 6)))
             out.append((seq, r.choice(sheets), 's1.xml', r.choice(('bad_alloc', 'oom')), 'plain'))
     return out
